@@ -668,6 +668,7 @@ PARTS = {
     ],
     "C07": [
         (PYG, "c07_py_protocols", dict()),
+        (PYG, "c17_py_protocol_batches", dict()),   # a stream step written by several calls (also right after another stream step) is one stream: no end marker between the calls
         (G, "gosym_part", dict(name="c07_cpp_writer", entry="internal/zzverif.C07CppWriter", args_quick=(3, 0), args_thorough=(5, 0), key_fn=c07_key,
                                required_sites=("raises-iff-out-of-order", "impl-called-iff-accepted", "post-state-is-next-step", "only-known-statement-forms"), assumptions=C07_ASSUME,
                                desc="cpp/protocols.writeDefinitions on every stream/non-stream pattern of n steps (symbolic flags); one-step simulation of each emitted writer method "
@@ -819,6 +820,8 @@ PARTS = {
         (PY, "c03_py_capacity", dict()),
         ("py_numpy", "c03_py_array_layouts", dict()),   # the bytes of an array do not depend on its memory layout (C / Fortran order, transposed or strided views)
         (PY, "c02_py_converters", dict()),   # NDJSON converters + NDJsonProtocolReader line look-ahead (binary <-> NDJSON copies)
+        ("py_ndjson", "c02_py_flags", dict()),        # a flags value copied binary -> NDJSON -> binary by Python keeps its bits, and the NDJSON text is the documented one other languages read
+        ("py_ndjson", "c02_py_array_json", dict()),   # the NDJSON form of an array does not depend on its memory layout
         C02_NULLFORM_PART,   # both languages read both renderings of the null case of a tagged nullable union
         C14_PART,
         C14_TRIVIAL_PART,   # C++ writes the same bytes as the other languages also when it takes the memcpy path
@@ -833,6 +836,7 @@ PARTS = {
         (CC, "c17_cc_blocks", dict()),
         (CC, "c17_cc_reuse", dict()),
         (PY, "c17_py_batching", dict()),
+        (PYG, "c17_py_protocol_batches", dict()),   # generated Binary<P>Writer / Reader: the grouping of a stream step's items into write calls (lists, iterables, empty calls; adjacent stream steps) never shows in the items read
         ("py_numpy", "c17_py_block_headers", dict()),   # block header = varint of a symbolic 64-bit block length (1..10 bytes), read and write side
         C01_CPP_PROTO_WRITER,   # how a writer's items are batched (incl. empty batches) never shows on the wire except as block boundaries
         C05_NESTED_READ,   # element-wise conversions of batch reads go through a fresh item and reset their target: no item depends on what the destination held before
@@ -847,6 +851,7 @@ PARTS = {
         C04_CPP_LABELS_PART,  # the generated C++ reader maps exactly the schema texts of the listed versions to a version and refuses every other text (incl. the empty one)
         (CC, "c15_cc_header", dict()),
         (PY, "c15_py_header", dict()),
+        (PYG, "c15_py_schema_edits", dict()),   # generated NDJson / Binary readers refuse their own schema after any single edit (array prefix / extension, swapped elements, renamed member, changed scalar)
     ],
     "C04": [
         C04_EMBED_PART,
@@ -891,6 +896,8 @@ PARTS = {
     ],
     "C02": [
         (PY, "c02_py_converters", dict()),
+        ("py_ndjson", "c02_py_flags", dict()),        # FlagsConverter on a flags definition with symbolic member values (multi-bit / overlapping / zero members): names written denote exactly the value
+        ("py_ndjson", "c02_py_array_json", dict()),   # NDJSON array converters on arrays of every memory layout: data = row-major logical order, from_json(to_json(a)) = a
         C02_NULLFORM_PART,
         (G, "gosym_part", dict(name="c02_union_tagging", entry="internal/zzverif.C02Union", args_quick=(2, 0, 0), args_thorough=(3, 1, 0),
                                extra_thorough=("-max-paths", "400000"), key_fn=c02_key,
@@ -1250,10 +1257,12 @@ CLAIMS_ADDENDA = {
     "C01": "Added: (gosym) the C++ binary generator's emitted protocol writer/reader methods are read back and interpreted on a symbolic protocol shape and a symbolic batch length: "
            "value step = one value; a stream write = non-empty blocks carrying exactly the items passed; End = the single 0 length; readers consume a length only when the block is exhausted.",
     "C02": "Added: map cases over all 18 key primitives (object only for string keys, also in the runtime: pysym); NDJsonProtocolReader line look-ahead over protocol patterns with "
-           "several stream steps; (gosym) the emitted C++ flags/enum NDJSON converters denote the documented mapping and round-trip for a symbolic definition and a symbolic 64-bit value.",
+           "several stream steps; (gosym) the emitted C++ flags/enum NDJSON converters denote the documented mapping and round-trip for a symbolic definition and a symbolic 64-bit value. "
+           "Added (round 4, pysym): FlagsConverter on a flags definition whose member values are symbolic 16-bit integers (multi-bit, overlapping, equal and zero members): the names written OR together to exactly the value, the integer form is the value, from_json(to_json(v)) = v; the three NDJSON array converters on logical arrays of every memory layout: data = row-major logical order, from_json(to_json(a)) = a.",
     "C03": "Added: the NDJSON converter and protocol-line parts (binary <-> NDJSON copies) are part of this check as well. "
            "Added: (pysym) fixed / n-d / dynamic array serializers on logical arrays with an explicit memory layout (C order, Fortran order, transposed and axis-permuted views, strided slices; "
-           "symbolic elements, bulk and element-wise paths): bytes = reference encoding of the elements in logical row-major order, and the reference encoding reads back as the logical array.",
+           "symbolic elements, bulk and element-wise paths): bytes = reference encoding of the elements in logical row-major order, and the reference encoding reads back as the logical array. "
+           "Added (round 4, pysym): the flags and array-layout obligations of the NDJSON converters (C02) count here too; arrays of records with solver-chosen field types (aligned numpy dtypes with and without padding, aligned or packed input dtype, C / Fortran / transposed layout): bytes = field-by-field reference encoding, read back equal.",
     "C04": "Added: the model has a fixed array with unnamed dimensions, a dynamic array, and a record of an imported namespace sharing its simple name with a local one; every backend "
            "(C++, Python, MATLAB) embeds exactly the schema text once and readers refer to the writer's; the emitted C++ schema tables (schema_, previous_schemas_, SchemaFromVersion) "
            "are evaluated with C++ static-initialisation-order semantics: the header written for every Version carries that version's own schema text.",
@@ -1265,7 +1274,8 @@ CLAIMS_ADDENDA = {
            "matching union case, and (known finding) of flat vs nested spelling of stream / vector item types; of how the protocol reaches an edited record (directly, through the first or a later "
            "instantiation of the same generic, an alias of an instantiation, a generic nested in a generic, a field of a record argument, with other changed steps around); with several predecessors "
            "the diagnostics labelled with one predecessor equal those of validating against it alone.",
-    "C07": "Added: abandoned (closed) and failing stream iterables keep the step open in the generated Python reader.",
+    "C07": "Added: abandoned (closed) and failing stream iterables keep the step open in the generated Python reader. "
+           "Added (round 4, pysym): the event `_write_<step> raises` in the writer's inductive step (post-state = step not written, a stream in progress before it ended for good) and, on the real Binary<P>Writer, failing writes followed by retry / write to the ended stream / close with the bytes compared with the reference encoding; the one-step simulation on the concrete Binary / NDJson x Writer / Reader classes (method resolution through both base classes); stream steps written by several calls (also adjacent stream steps) through the generated binary writer / reader.",
     "C08": "Added: every relative import of every generated Python module resolves to a file written in the same run for all option x import-shape combinations; dtype registrations are "
            "dependencies-first; GetAllChildReferences on every reference DAG (<= 4/5 namespaces) is duplicate-free and dependencies-first.",
     "C09": "Added: the same rule violations, incl. reference cycles, reached through 10 ways of writing a type argument of local / imported generic types; a !stream in a type argument of a step "
@@ -1289,11 +1299,13 @@ CLAIMS_ADDENDA = {
     "C14": "Added: the NDJSON tagged/untagged decision of the Python generator (3-case unions); MATLAB and Python union classes number their cases consistently with what the binary "
            "UnionSerializer writes.",
     "C15": "Added: wire-different models have different schema texts (the C04 'determines' part) and every backend embeds exactly that text; the emitted C++ VersionFromSchema "
-           "accepts exactly the schema texts of the listed versions and refuses every other text, incl. the empty one.",
+           "accepts exactly the schema texts of the listed versions and refuses every other text, incl. the empty one. "
+           "Added (round 4, pysym): the generated NDJson<P>Reader / Binary<P>Reader constructors refuse their own schema after any single edit of the JSON document (array prefix / extension / duplicated or swapped elements at every depth, added / renamed / dropped members, changed scalars incl. symbolic integers) and accept the unedited one.",
     "C16": "Added: bulk reads (read_view / read_bytearray, all three code paths incl. count larger than the buffer) return only bytes the stream holds.",
     "C17": "Added: returned items (arrays, strings, containers of arrays) share no memory with the reader buffer and are unchanged by later reads / refills; the emitted C++ stream writer's block structure. "
            "Added: (pysym) the block length in a stream block header is a symbolic 64-bit value (varint of 1..10 bytes): StreamSerializer.read consumes exactly the header and delivers the block's items, "
-           "StreamSerializer.write of a list of symbolic length n emits varint(n).",
+           "StreamSerializer.write of a list of symbolic length n emits varint(n). "
+           "Added (round 4, pysym): through the generated Binary<P>Writer / Reader, the grouping of a stream step's items into write calls (lists, lazy iterables, empty calls; first / after a value / adjacent stream steps) shows on the wire only as block boundaries (one end marker per stream) and never in the items read back.",
     "C18": "Added: termination as an obligation on every graph; every import-list order; the namespace graph built by parsePackageNamespaces mirrors the import graph.",
     "C19": "Added: all 2 x 25 nestings of {+,-,*,/,**} over three operands plus 15 unary-minus placements on symbolic operands ((-x) ** y repaired by 641186f). "
            "Added: (pysym) computed fields over elements of array fields and over scalar fields holding numpy scalars (numpy's fixed-width integer semantics modelled and validated against real numpy): "
